@@ -492,3 +492,22 @@ Section JustifySound.
     - apply score_okb_ok. assumption.
   Qed.
 End JustifySound.
+
+(** non-vacuity: the checker accepts the record of a checkmated node (site 18, in check, no legal
+    move, window (-31999,-31000) at ply 1), records its table fact, and then accepts its parent
+    (site 16, exact score "mate 1" at ply 0 in a position with that single legal move) *)
+Definition ex_child : nrec :=
+  mkN 5%positive 0 1 1 (-31999) (-31000) (-31998) 18 T_LE true 0 0 0 0 None.
+Definition ex_parent : nrec :=
+  mkN 6%positive 0 0 2 31000 31999 31998 16 T_EXACT false 0 0 0 0 None.
+
+Example justify_example :
+  match step (PM.empty nrec) (PM.empty (list (Z * Z))) 1%positive ex_child (mkO true []) with
+  | Some (acc, st) =>
+      stores st 5%positive = [(T_LE, ttSetScore (-31998) 1)] /\
+      check_node acc st ex_parent (mkO false [Some 1%positive]) = true /\
+      check_node acc st ex_parent (mkO false [None]) = false /\
+      check_root_win acc 1%positive 31000 32000 31998 1 = false
+  | None => False
+  end.
+Proof. vm_compute. repeat split. Qed.
